@@ -17,5 +17,20 @@ CLAIMS = {
  },
 }
 
+CLAIMS['C03'] = {
+  'text': 'Proof: contracts on Float.to_int/to_int_truncate, values.cint_/fix_/int_, Float.from_int, Integer->float promotion, Double.from_single/to_single, '
+          'MKI$/MKS$/MKD$/CVI/CVS/CVD and HEX$/OCT$ with &H/&O re-reading are discharged for every single and double bit pattern '
+          '(symbolic mantissa bytes; the exponent byte is forked over all 256 values so powers of two are constants) and all 65536 integers. '
+          'Specs are the statement in integer arithmetic on (sign, mantissa, exponent): round half away, truncate, floor with exact re-encoding, '
+          'exact widening, bracketing and nearest-within-1/256-ulp narrowing, byte preservation, digit strings that denote and re-read to the same 16-bit pattern.',
+  'note': _TB + 'String space behind MKx$/CVx uses a stand-in for DataSegment (fixed layout, no memory pressure). %X/%o formatting and int(bytes, base) are builtin summaries. CVx string lengths: 10 representative lengths in quick, all 0..255 in thorough.',
+}
+CLAIMS['C06'] = {
+  'text': 'Proof: Integer.gt/eq, Float.gt/eq/_abs_gt (Single, Double; all bit patterns incl. non-canonical zeros), values._bool_gt/_bool_eq for all 9 type pairings, '
+          'and the six relational operators (modularly, against the helper contracts) are proved to return exactly the order of the denoted values; '
+          'trichotomy and the magnitude-order lemma of the spec are proved as lemmas.',
+  'note': _TB + 'Mixed-type pairs are specified on the operands after the promotion the operator itself performs; exactness of those promotions is proved under C03.',
+}
+
 NOT_APPLICABLE = {
 }
